@@ -372,3 +372,37 @@ def chain_trace(rng, apply_thinning=True, nops=25):
             none, it, eps, _ = items(opt)
             ev.append({"ev": "combine", "mode": mode, "epochs": es, "none": none, "items": [[e, i] for e, i in zip(eps, it)]})
     return {"hdr": {"kind": "chain", "apply_thinning": apply_thinning}, "ev": ev}
+
+
+# ---- Groups: membership registration -----------------------------------------------------------
+def groups_trace(rng, nm=4, gnames=("a", "b"), nops=8):
+    members = [lsl.Value(0.0, _name=f"m{i}") if i % 2 else lsl.Var(0.0, name=f"m{i}") for i in range(1, nm + 1)]
+    made = []          # successfully constructed groups, in order
+    ev = []
+    for _ in range(nops):
+        name = rng.choice(gnames)
+        ms = rng.sample(range(1, nm + 1), rng.randint(1, nm))
+        rej = "none"
+        g = None
+        try:
+            g = lsl.Group(name, **{f"k{m}": members[m - 1] for m in ms})
+            made.append(g)
+        except RuntimeError as e:
+            rej = "already_member" if "already a member" in str(e) else "other:" + str(e)[:60]
+        reg = []
+        for mem in members:
+            row = {}
+            for n in gnames:
+                if n not in mem.groups:
+                    row[n] = 0
+                else:
+                    row[n] = next((i for i, x in enumerate(made, start=1) if x is mem.groups[n]), -1)
+            reg.append(row)
+        e = {"ev": "new_group", "name": name, "members": ms, "rej": rej, "reg": reg, "listed": [], "partition_ok": True}
+        if g is not None:
+            e["listed"] = [int(k[1:]) for k in g.nodes_and_vars]
+            e["partition_ok"] = (set(g.nodes) | set(g.vars) == set(g.nodes_and_vars) and not set(g.nodes) & set(g.vars)
+                                 and all(isinstance(v, lsl.Var) for v in g.vars.values())
+                                 and all(f"k{m}" in g and g[f"k{m}"] is members[m - 1] for m in ms) and g.name == name)
+        ev.append(e)
+    return {"hdr": {"kind": "groups", "nm": nm}, "ev": ev}
